@@ -91,7 +91,22 @@ func (fr *Frame) evalClause(src string, env *Env) string {
 	src = strings.TrimSpace(src)
 	// quantifiers extend as far to the right as possible
 	if strings.HasPrefix(src, "exists ") {
-		inner := fr.evalClause("forall "+strings.Replace(src[len("exists "):], "::", ":: !(", 1)+")", env)
+		// exists x :: {pat} body  ==  !(forall x :: {pat} !(body)); the pattern groups stay in front of the negated body
+		head, body, ok := strings.Cut(src[len("exists "):], "::")
+		if !ok {
+			panic("exists without :: in " + src)
+		}
+		body = strings.TrimSpace(body)
+		pats := ""
+		for strings.HasPrefix(body, "{") {
+			i := strings.Index(body, "}")
+			if i <= 0 {
+				break
+			}
+			pats += body[:i+1] + " "
+			body = strings.TrimSpace(body[i+1:])
+		}
+		inner := fr.evalClause("forall "+head+":: "+pats+"!("+body+")", env)
 		return "(not " + inner + ")"
 	}
 	if strings.HasPrefix(src, "forall ") {
